@@ -194,20 +194,27 @@ LicFrom(v)     == LET ls == ParseLines(v)                                 \* Lic
 Fld(k, v) == [k |-> k, v |-> v]
 FormatLn  == Ln(0, "txt", <<1>>)                       \* the format URL
 
-NoPara == [kind |-> "none", pats |-> <<>>, copy |-> <<>>, lic |-> Lic(EmptyLn, <<EmptyLn>>)]
-FilesPara(pats, copy, lic) == [kind |-> "Files", pats |-> pats, copy |-> copy, lic |-> lic]
-LicensePara(lic)           == [kind |-> "License", pats |-> <<>>, copy |-> <<>>, lic |-> lic]
+\* extra = the other fields of the paragraph, raw, in order (comment, Source, Disclaimer, custom fields)
+NoPara == [kind |-> "none", pats |-> <<>>, copy |-> <<>>, lic |-> Lic(EmptyLn, <<EmptyLn>>), extra |-> <<>>]
+FilesPara(pats, copy, lic) == [kind |-> "Files", pats |-> pats, copy |-> copy, lic |-> lic, extra |-> <<>>]
+LicensePara(lic)           == [kind |-> "License", pats |-> <<>>, copy |-> <<>>, lic |-> lic, extra |-> <<>>]
 
-\* header: name = optional string, uc = list of entries (word sequences), lic = optional license
-Hdr(name, uc, lic) == [name |-> name, uc |-> uc, lic |-> lic]
+\* header: name = optional string, uc / fe / fi = lists of entries (word sequences) of the line-based
+\* fields Upstream-Contact / Files-Excluded / Files-Included, lic = optional license, extra as above
+HdrX(name, uc, lic, fe, fi, extra) == [name |-> name, uc |-> uc, lic |-> lic, fe |-> fe, fi |-> fi, extra |-> extra]
+Hdr(name, uc, lic) == HdrX(name, uc, lic, <<>>, <<>>, <<>>)
 
-ParaFields(p) == IF p.kind = "Files"                                       \* FilesParagraph.create
-                 THEN <<Fld("Files", SpaceTo(p.pats)), Fld("Copyright", p.copy), Fld("License", LicTo(p.lic))>>
-                 ELSE <<Fld("License", LicTo(p.lic))>>                     \* LicenseParagraph.create
+ParaFields(p) == (IF p.kind = "Files"                                      \* FilesParagraph.create
+                  THEN <<Fld("Files", SpaceTo(p.pats)), Fld("Copyright", p.copy), Fld("License", LicTo(p.lic))>>
+                  ELSE <<Fld("License", LicTo(p.lic))>>)                   \* LicenseParagraph.create
+                 \o p.extra
 HeaderFields(h) == <<Fld("Format", <<FormatLn>>)>>
                    \o (IF h.name # <<>> THEN <<Fld("Upstream-Name", h.name[1])>> ELSE <<>>)
                    \o (IF h.uc # <<>> THEN <<Fld("Upstream-Contact", LineTo(h.uc))>> ELSE <<>>)
                    \o (IF h.lic # <<>> THEN <<Fld("License", LicTo(h.lic[1]))>> ELSE <<>>)
+                   \o (IF h.fe # <<>> THEN <<Fld("Files-Excluded", LineTo(h.fe))>> ELSE <<>>)
+                   \o (IF h.fi # <<>> THEN <<Fld("Files-Included", LineTo(h.fi))>> ELSE <<>>)
+                   \o h.extra
 
 \* physical lines of the dumped text: t = "F" a field start 'Key: first' / 'Key:', t = "R" any other line
 FLine(k, x) == [t |-> "F", k |-> k, x |-> x]
@@ -248,9 +255,13 @@ LicFromM(m, v) == IF LicMemoBySynopsis /\ \E c \in m.lics : c.key = v[1]
                   THEN (CHOOSE c \in m.lics : c.key = v[1]).lic
                   ELSE LicFrom(v)
 
-LoadHeaderM(m, fs) == Hdr(IF Has(fs, "Upstream-Name") THEN <<GetV(fs, "Upstream-Name")>> ELSE <<>>,
+Others(fs, known) == SelectSeq(fs, LAMBDA f : f.k \notin known)
+LoadHeaderM(m, fs) == HdrX(IF Has(fs, "Upstream-Name") THEN <<GetV(fs, "Upstream-Name")>> ELSE <<>>,
                       IF Has(fs, "Upstream-Contact") THEN LineFrom(GetV(fs, "Upstream-Contact")) ELSE <<>>,
-                      IF Has(fs, "License") THEN <<LicFromM(m, GetV(fs, "License"))>> ELSE <<>>)
+                      IF Has(fs, "License") THEN <<LicFromM(m, GetV(fs, "License"))>> ELSE <<>>,
+                      IF Has(fs, "Files-Excluded") THEN LineFrom(GetV(fs, "Files-Excluded")) ELSE <<>>,
+                      IF Has(fs, "Files-Included") THEN LineFrom(GetV(fs, "Files-Included")) ELSE <<>>,
+                      Others(fs, {"Format", "Upstream-Name", "Upstream-Contact", "License", "Files-Excluded", "Files-Included"}))
 LoadParaM(m, fs) ==
    IF Has(fs, "Files") THEN
       LET pats == SpaceFrom(GetV(fs, "Files"))
@@ -258,10 +269,12 @@ LoadParaM(m, fs) ==
                   \/ (Has(fs, "License") /\ ParseErr(GetV(fs, "License")))
       IN [err |-> bad,
           p   |-> IF bad THEN NoPara
-                  ELSE FilesPara(pats, GetV(fs, "Copyright"), LicFromM(m, GetV(fs, "License")))]
+                  ELSE [FilesPara(pats, GetV(fs, "Copyright"), LicFromM(m, GetV(fs, "License")))
+                          EXCEPT !.extra = Others(fs, {"Files", "Copyright", "License"})]]
    ELSE IF Has(fs, "License") THEN
       LET bad == ParseErr(GetV(fs, "License"))
-      IN [err |-> bad, p |-> IF bad THEN NoPara ELSE LicensePara(LicFromM(m, GetV(fs, "License")))]
+      IN [err |-> bad, p |-> IF bad THEN NoPara
+                             ELSE [LicensePara(LicFromM(m, GetV(fs, "License"))) EXCEPT !.extra = Others(fs, {"License"})]]
    ELSE [err |-> TRUE, p |-> NoPara]
 
 Failed(e) == [err |-> e, hdr |-> Hdr(<<>>, <<>>, <<>>), paras |-> <<>>]
@@ -305,14 +318,16 @@ MkLic(k, tx)   == Lic(Ln(0, "txt", <<Code(k, 3, 0)>>), Join(MkText(k, 4, tx)))
 \* DESIGN D3: a license text does not end in a newline (= its last line is not empty)
 TextOK(t)      == t = <<>> \/ t[Len(t)] # "E"
 
-FShape(np, cp, tx) == [kind |-> "Files", np |-> np, cp |-> cp, tx |-> tx]
-LShape(tx)         == [kind |-> "License", np |-> 0, cp |-> <<>>, tx |-> tx]
-MkPara(k, sh) == IF sh.kind = "Files"
-                 THEN FilesPara([j \in 1..sh.np |-> Code(k, 1, j)], MkText(k, 2, sh.cp), MkLic(k, sh.tx))
-                 ELSE LicensePara(MkLic(k, sh.tx))
+FShape(np, cp, tx) == [kind |-> "Files", np |-> np, cp |-> cp, tx |-> tx, cm |-> 0]
+LShape(tx)         == [kind |-> "License", np |-> 0, cp |-> <<>>, tx |-> tx, cm |-> 0]
+WithComment(sh)    == [sh EXCEPT !.cm = 1]           \* p.comment = a two-line text
+MkPara(k, sh) == [(IF sh.kind = "Files"
+                   THEN FilesPara([j \in 1..sh.np |-> Code(k, 1, j)], MkText(k, 2, sh.cp), MkLic(k, sh.tx))
+                   ELSE LicensePara(MkLic(k, sh.tx)))
+                  EXCEPT !.extra = IF sh.cm = 1 THEN <<Fld("Comment", MkText(k, 7, <<"P", "I">>))>> ELSE <<>>]
 
-SmallShapes == {FShape(1, <<"P">>, <<>>), FShape(2, <<"P", "I">>, <<"P", "E", "I">>),
-                LShape(<<>>), LShape(<<"P", "E", "P">>)}
+SmallShapes == {FShape(1, <<"P">>, <<>>), WithComment(FShape(2, <<"P", "I">>, <<"P", "E", "I">>)),
+                LShape(<<>>), WithComment(LShape(<<"P", "E", "P">>))}
 BigTexts  == {t \in SeqsUpTo(BigTextAlpha, BigTextMax) : TextOK(t)}
 BigCopys  == {<<"P">> \o c : c \in SeqsUpTo(CopyAlpha, CopyMax - 1)}
 \* the focus paragraph: every copyright text x every license text (with the longest pattern list),
@@ -341,7 +356,11 @@ HdrOf(kind) ==
         [] kind = "contact2" -> Hdr(nm, <<e(1), e(2)>>, <<>>)
         [] kind = "contact3" -> Hdr(<<>>, <<e(1), e(2), e(3)>>, <<>>)
         [] kind = "lic"      -> Hdr(<<>>, <<>>, <<MkLic(0, <<>>)>>)
-        [] kind = "full"     -> Hdr(nm, <<e(1), e(2)>>, <<MkLic(0, <<"P", "E", "ID", "I">>)>>)
+        [] kind = "full"     -> HdrX(nm, <<e(1), e(2)>>, <<MkLic(0, <<"P", "E", "ID", "I">>)>>,
+                                     <<<<Code(0, 8, 1)>>, <<Code(0, 8, 2)>>>>, <<<<Code(0, 8, 3)>>>>,
+                                     <<Fld("Source", <<Ln(0, "txt", <<Code(0, 9, 1)>>)>>),
+                                       Fld("Comment", MkText(0, 7, <<"P", "I", "ID">>)),
+                                       Fld("X-Custom", <<Ln(0, "txt", <<Code(0, 9, 2)>>)>>)>>)
 
 ----------------------------------------------------------------------------
 \* state spaces
@@ -380,6 +399,15 @@ CodecStableOf(ls)  == FormatLines(ParseLines(FormatLines(ls))) = FormatLines(ls)
 \* as the continuation of a field whose first line is the synopsis: accepted by Deb822 and unsplittable
 EncodedSafeOf(ls)  == LET v == FormatLines(<<Ln(0, "txt", <<0>>)>> \o ls) IN Accepts(v) /\ Unsplittable(v)
 
+\* the string variants format_multiline / parse_multiline (s.splitlines() first, '\n'.join last): the
+\* law holds for the text '\n'.join(ls) when, in addition, the last line is not empty
+FormatStr(s) == FormatLines(SplitLines(s))
+ParseStr(s)  == Join(ParseLines(s))
+StrDomain(ls)      == CodecDomain(ls) /\ (ls = <<>> \/ ~IsEmpty(ls[Len(ls)]))
+CodecStrLawOf(ls)  == StrDomain(ls) => (ParseStr(FormatStr(Join(ls))) = Join(ls) /\ FormatStr(Join(ls)) = FormatLines(ls))
+\* License.from_str(l.to_str()) = l for a synopsis line and a text inside the domain
+LicLawOf(l)        == LicFrom(LicTo(l)) = l
+
 \* a second call on the same list, after the caller changed the list the first call returned
 CodecRepeatOf(ls)  == LET first     == ParseLines(FormatLines(ls))
                           scribbled == Append(first, Ln(0, "txt", <<0>>))
@@ -400,11 +428,12 @@ CodecEmit == Emit => PrintT(<<"CASE", ToJson([l   |-> lst,
                                               inp |-> EncStr(Lines(lst)),
                                               enc |-> EncStr(FormatLines(Lines(lst))),
                                               out |-> EncStr(ParseLines(FormatLines(Lines(lst)))),
-                                              dom |-> CodecDomain(Lines(lst))])>>)
+                                              dom |-> CodecDomain(Lines(lst)),
+                                              sdom |-> StrDomain(Lines(lst))])>>)
 CodecProps == Mode = "codec" =>
                  LET ls == Lines(lst)
                  IN /\ CodecNormalOf(ls) /\ CodecLawOf(ls) /\ CodecStableOf(ls) /\ EncodedSafeOf(ls)
-                    /\ CodecRepeatOf(ls) /\ CodecEmit
+                    /\ CodecRepeatOf(ls) /\ CodecStrLawOf(ls) /\ CodecEmit
 
 ----------------------------------------------------------------------------
 \* document properties (evaluated for every header kind and build history)
@@ -427,10 +456,12 @@ HistoryKept   == Mode = "doc" => IF ed = <<>> THEN paras = Build(hist) /\ Len(pa
                                  ELSE ed[1].pre = Build(hist) /\ paras = ApplyEdit(ed[1].pre, ed[1].e)
 
 EncLic(l)  == [s |-> EncLn(l.syn), t |-> EncStr(l.text)]
-EncPara(p) == [k |-> p.kind, p |-> p.pats, c |-> EncStr(p.copy), l |-> EncLic(p.lic)]
+EncExtra(x) == [i \in 1..Len(x) |-> [k |-> x[i].k, v |-> EncStr(x[i].v)]]
+EncPara(p) == [k |-> p.kind, p |-> p.pats, c |-> EncStr(p.copy), l |-> EncLic(p.lic), x |-> EncExtra(p.extra)]
 EncHdr(h)  == [n |-> IF h.name = <<>> THEN <<>> ELSE <<EncStr(h.name[1])>>,
                u |-> h.uc,
-               l |-> IF h.lic = <<>> THEN <<>> ELSE <<EncLic(h.lic[1])>>]
+               l |-> IF h.lic = <<>> THEN <<>> ELSE <<EncLic(h.lic[1])>>,
+               fe |-> h.fe, fi |-> h.fi, x |-> EncExtra(h.extra)]
 EncDL(dl)  == [f |-> dl.k, x |-> EncLn(dl.x)]
 EncEdit(e) == [kind |-> e.kind, i |-> e.i, at |-> e.at, p |-> e.pats, c |-> EncStr(e.copy), l |-> EncLic(e.lic),
                a |-> EncPara(e.para)]
@@ -447,6 +478,8 @@ DocProps == Mode = "doc" =>
                    d == DumpM(Memo, h, paras)
                    L == LoadM(Memo, d)
                IN /\ BuildAcceptedOf(h, paras) /\ FilesFirstOf(paras)
+                  /\ \A i \in 1..Len(paras) : LicLawOf(paras[i].lic)
+                  /\ \A j \in 1..Len(h.lic) : LicLawOf(h.lic[j])
                   /\ RoundTripOf(h, paras, L) /\ StableOf(h, paras, L)
                   /\ DocEmit(h, d)
 =============================================================================
